@@ -3,7 +3,6 @@
 use proptest::prelude::*;
 use rayon::prelude::*;
 use rs1090::decode::{Message, DF};
-use rs1090::prelude::*;
 use serde_json::{json, Value};
 use std::collections::{BTreeMap, BTreeSet};
 use vcore::enc::{self, twos, Bds40, Bds50, Bds60, TssMe, VelocityMe};
@@ -128,7 +127,7 @@ fn run_table(pool: &Pool, recs: &[(usize, &Rec)]) -> Value {
             o
         })
         .collect();
-    pool.with(|d| d.call(&json!({"cmd": "snapshot", "records": records})))
+    pool.call(&json!({"cmd": "snapshot", "records": records}))
 }
 
 const PROVENANCE_KEYS: [&str; 15] = ["callsign", "squawk", "latitude", "longitude", "altitude", "selected_altitude", "groundspeed", "vertical_rate", "track", "ias", "tas", "mach", "roll", "heading", "nacp"];
@@ -139,6 +138,9 @@ pub fn check_hist(ctx: &Ctx, pool: &Pool, hist: &[Rec]) -> Check {
     let fail = |sig: &str, d: String| Failure::new(format!("c12:{sig}"), d, rep.clone());
     let indexed: Vec<(usize, &Rec)> = hist.iter().enumerate().collect();
     let ans = run_table(pool, &indexed);
+    if let Some(m) = ans["driver_crashed"].as_str() {
+        return Err(fail("driver-crashed", format!("the jet1090 process died twice while update_snapshot handled this history: {m}")));
+    }
     let table = ans["table"].as_array().cloned().ok_or_else(|| fail("harness-no-table", ans.to_string()))?;
     if ans["skipped"].as_u64().unwrap_or(0) != 0 {
         return Err(fail("harness-frame-rejected", ans.to_string()));
@@ -210,6 +212,9 @@ pub fn check_hist(ctx: &Ctx, pool: &Pool, hist: &[Rec]) -> Check {
         for (k, _) in own.iter() {
             let mine: Vec<(usize, &Rec)> = hist.iter().enumerate().filter(|(_, r)| format!("{:06x}", addr_of(r.ac)) == *k).collect();
             let alone = run_table(pool, &mine);
+            if let Some(m) = alone["driver_crashed"].as_str() {
+                return Err(fail("driver-crashed", format!("the jet1090 process died twice while update_snapshot handled the records of {k} alone: {m}")));
+            }
             let a = alone["table"].as_array().and_then(|t| t.iter().find(|e| e["icao24"].as_str() == Some(k.as_str())).cloned());
             let b = table.iter().find(|e| e["icao24"].as_str() == Some(k.as_str())).cloned();
             if a != b {
